@@ -1,5 +1,5 @@
 SPECIFICATION Spec
-CONSTANTS MaxOps = 3  Dev = {"PrivateOnPublicSilent"}  Kty = "EC"
+CONSTANTS MaxOps = 3  Dev = {"PrivateOnPublicSilent"}  Kty = "EC"  ExportEvery = 1
 INVARIANT PublicClean
 INVARIANT PrivateOnPublicIsError
 INVARIANT NoPrivateGain
